@@ -21,10 +21,10 @@ txt = '''## 10. Kill matrix: which checks catch which seeded changes
 Every change below compiles, passes the 131 unit tests and 71 doctests unchanged, and comes with a demonstration
 (`seeded/<name>/seeded_demo.rs`) that fails with the change and passes without it. The `agent-*` ones were written
 by fresh sub-agents that were given only the text of one property and a scratch git worktree (nothing from
-`/verif`); `…b`–`…e` are later rounds asked for a *different* kind of bug, `…f` is the sixth round (each agent also got one-line
+`/verif`); `…b`–`…e` are later rounds asked for a *different* kind of bug, `…f` / `…g` are the sixth and seventh rounds (each agent also got one-line
 summaries of the earlier changes for its property so as not to repeat them). I confirmed each claim myself
 (`engine/seedtool.py verify`) before keeping it, then ran the checks against it
-(`engine/seedtool.py kill`: `git -C /repo apply`, `./check <prop> --tier quick`, `git -C /repo checkout -- .`; sixth round:
+(`engine/seedtool.py kill`: `git -C /repo apply`, `./check <prop> --tier quick`, `git -C /repo checkout -- .`; sixth and seventh round:
 `engine/killwt.py`, the same checks pointed at the scratch worktree through `VERIF_REPO`, `/repo` untouched).
 "MISSED at first" marks the %d changes that a check did not catch when first run; each led to the strengthening
 named in the entry (all of those are caught now, and the unchanged tree is still silent). "NOT CAUGHT" marks the changes no check
